@@ -131,11 +131,26 @@ static CaseResult system_case(Tape &t)
 	// one case in three: the server's first 1..3 raw login replies are lost on the way; the client repeats its raw login (it tries
 	// four times) and every repeat must be answered with hash(challenge-1) again
 	int lose_replies = t.chance(1, 3) ? 1 + (int)t.below(3) : 0, lost = 0;
-	if (lose_replies) {
-		int srv_idx = s.srv->idx;
-		sim::W.router = [&lost, lose_replies, srv_idx](const sim::Datagram &dg) {
+	// one case in three (taken from the client's seed, so that pinned tapes keep their meaning): while the client waits for the reply to
+	// its first raw login another datagram reaches its socket first -- a late copy of the DNS answer it got last, or a raw login frame
+	// with a digest that is not the server's; the client sends its next attempt at once, and that attempt (like every one) must carry
+	// hash(challenge+1)
+	int stray_kind = ((c.cli_seed >> 8) % 3 == 0) ? 1 + (int)((c.cli_seed >> 12) & 1) : 0, strays = 0;
+	Bytes last_dns_answer; sim::Addr last_dns_src, last_dns_dst;
+	if (lose_replies || stray_kind) {
+		int srv_idx = s.srv->idx, cli_idx = -1;
+		sim::W.router = [&, srv_idx, cli_idx](const sim::Datagram &dg) mutable {
 			const Bytes &d = dg.data;
-			if (dg.from_inst == srv_idx && lost < lose_replies && d.size() >= 20 && d[0] == 0x10 && d[1] == 0xd1 && d[2] == 0x9e && (d[3] & 0xf0) == 0x10) { lost++; return; }
+			bool rawlogin = d.size() >= 20 && d[0] == 0x10 && d[1] == 0xd1 && d[2] == 0x9e && (d[3] & 0xf0) == 0x10;
+			if (dg.from_inst == srv_idx && !rawlogin && d.size() >= 20) { last_dns_answer = d; last_dns_src = dg.src; last_dns_dst = dg.dst; }
+			if (dg.from_inst == srv_idx && lost < lose_replies && rawlogin) { lost++; return; }
+			if (dg.from_inst != srv_idx && rawlogin && stray_kind && strays < 2 && !last_dns_answer.empty()) {
+				sim::Datagram x; x.src = dg.dst; x.dst = dg.src;
+				if (stray_kind == 1) { x.data = last_dns_answer; x.src = last_dns_src; x.dst = last_dns_dst; }
+				else { x.data = Bytes(d.begin(), d.begin() + 4); for (int k = 0; k < 16; k++) x.data.push_back((uint8_t)(c.cli_seed >> (k % 4 * 8)) ^ (uint8_t)(k * 37)); }
+				strays++;
+				sim::W.deliver_after(x, sim::W.latency_us / 2);   // ahead of the server's reply
+			}
 			sim::W.deliver_after(dg, sim::W.latency_us);
 		};
 	}
@@ -176,6 +191,7 @@ static CaseResult system_case(Tape &t)
 	r.nontrivial = S.login && S.rawc && S.raws;
 	r.cls("system");
 	if (lost) r.cls("raw-login-reply-lost-and-repeated");
+	if (strays) r.cls(stray_kind == 1 ? "stray-dns-answer-during-raw-login" : "stray-raw-login-frame-with-wrong-digest");
 	if (c.pass_env_client || c.pass_env_server) r.cls("password-from-environment");
 	if (c.password.find('%') != std::string::npos) r.cls("password-with-percent");
 	if (forced >= 0) r.cls("system:boundary-challenge");
